@@ -43,6 +43,11 @@ def parseRefs (kind : Kind) (cs : List Char) : Option (List Ref) :=
     | _, c :: t => do some ⟨(← kindOf c), (← intOf t)⟩
     | _, [] => none
 
+def parseXY (cs : List Char) : Option (Int × Int) :=
+  match splitC ',' cs with
+  | [a, b] => do some ((← intOf a), (← intOf b))
+  | _ => none
+
 def parseObj (tok : String) : Option Obj :=
   match splitC ':' tok.toList with
   | [c :: idc, mid, tg] => do
@@ -50,14 +55,23 @@ def parseObj (tok : String) : Option Obj :=
     let id ← intOf idc
     let tags ← parseTags tg
     match kind with
-    | .node => some ⟨⟨kind, id⟩, [], mid == ['i'], tags⟩
-    | _ => do some ⟨⟨kind, id⟩, (← parseRefs kind mid), false, tags⟩
+    | .node => do
+      let (x, y) ← parseXY mid
+      some ⟨⟨kind, id⟩, [], x, y, tags⟩
+    | _ => do some ⟨⟨kind, id⟩, (← parseRefs kind mid), 0, 0, tags⟩
   | _ => none
 
-def parseKeep (tok : String) : Option (Keep × String) :=
-  if tok == "all" then some (keepAll, "all")
-  else if tok == "bounds" then some (keepBounds, "bounds")
+/-- keep token → (model keep function, documented spec of it, class name) -/
+def parseKeep (tok : String) : Option (Keep × KeepSpec × String) :=
+  if tok == "all" then some (keepAll, .all, "all")
   else match splitC ':' tok.toList with
+    | [['b','o','u','n','d','s'], spec] =>
+      match (splitC ',' spec).mapM intOf with
+      | some [a, b, c, d] =>
+        let shape := if c < a || d < b then "inverted" else if a == c && b == d then "point"
+          else if a == c || b == d then "flat" else "box"
+        some (keepBounds ⟨a, b, c, d⟩, .bounds a b c d, "bounds-" ++ shape)
+      | _ => none
     | [['t','a','g','s'], spec] => do
       let want ← (splitC ';' spec).mapM fun kv =>
         match splitC '=' kv with
@@ -66,7 +80,7 @@ def parseKeep (tok : String) : Option (Keep × String) :=
           let vals ← if vs.isEmpty then some [] else (splitC '|' vs).mapM natOf
           some (k, vals)
         | _ => none
-      some (keepTags want, "tags")
+      some (keepTags want, .tags want, "tags")
     | _ => none
 
 /-! ## canonical id strings -/
@@ -209,9 +223,13 @@ def judgeLine (line : String) : String :=
   match lhs with
   | "x" :: keepTok :: _runs :: seedTok :: "|" :: objToks =>
     match parseKeep keepTok, objToks.mapM parseObj with
-    | some (k, kname), some doc =>
+    | some (k, ks, kname), some doc =>
       let dang := !noDanglingB doc
-      let cls := s!"{kname}-{if dang then "dangling" else "closed"}-{sizeClass doc.length}"
+      let onEdge : Bool := match ks with
+        | .bounds a b c d => doc.any fun o => o.key.kind == .node && decide (inClosedRect a b c d o.x o.y) &&
+            (o.x == a || o.x == c || o.y == b || o.y == d)
+        | _ => false
+      let cls := s!"{kname}{if onEdge then "-edge" else ""}-{if dang then "dangling" else "closed"}-{sizeClass doc.length}"
       if !uniqueKeysB doc then s!"OK {cls}-skipped" else
       match rhs with
       | "timeout" :: _ => s!"SPEC {cls} extraction-does-not-return"
@@ -223,8 +241,9 @@ def judgeLine (line : String) : String :=
       | none => s!"DIFF {cls} unparsable-implementation-answer"
       | some im =>
         -- Spec
-        let C := closure doc k
-        if !closedB doc k C then s!"DIFF {cls} spec-iteration-did-not-reach-a-closed-set" else
+        -- the Spec side uses the DOCUMENTED selection of the keep function (Spec.specKeep), not the model's
+        let C := closure doc (specKeep ks)
+        if !closedB doc (specKeep ks) C then s!"DIFF {cls} spec-iteration-did-not-reach-a-closed-set" else
         let want := idsStr (C.filter (presentB doc))
         let wantObjs := doc.filter fun o => decide (o.key ∈ C)
         if im.seqIds != want then
@@ -313,7 +332,7 @@ def exploreLine (line : String) : String :=
   match tokens line with
   | "x" :: keepTok :: _ :: _ :: "|" :: objToks =>
     match parseKeep keepTok, (objToks.takeWhile (· ≠ "=>")).mapM parseObj with
-    | some (k, _), some doc =>
+    | some (k, _, _), some doc =>
       let show_ := fun (o : Option (List String)) => match o with | none => "cap" | some l => ";".intercalate l
       s!"fixed={show_ (exploreAll ⟨true, k, 2⟩ doc 30000)} original={show_ (exploreAll ⟨false, k, 2⟩ doc 30000)} closure={idsStr ((closure doc k).filter (presentB doc))}"
     | _, _ => "BAD parse"
